@@ -10,7 +10,7 @@
 EXTENDS LexVal, Json, IOUtils, TLC, SequencesExt
 
 N == CHOOSE n \in 0..16 : ToString(n) = IOEnv.N
-Alpha == {97, cSQUOTE, cBTICK, cDQUOTE, cBSLASH, cSPACE, cNL, 233, 128512, 47}
+Alpha == {97, cSQUOTE, cBTICK, cDQUOTE, cBSLASH, cSPACE, cNL, 233, 128512, 47, 13, 117}      \* (13: CR next to LF; 117: a "u" behind a backslash)
 
 Marker == JInt(1)
 Other  == JInt(2)
